@@ -485,6 +485,35 @@ def rule_esc_restarts(ctx: Ctx) -> RuleResult:
     return rr
 
 
+def rule_resize_keeps_cursor_line(ctx: Ctx) -> RuleResult:
+    """resize() changes the height by moving whole lines between the top of the screen and the scrollback
+    (self.term.insert(0, line) / self.term.pop(0)): every line on the screen shifts by one row each time.  The cursor
+    belongs to its line, so the row that is handed to set_term_cursor() at the end shifts with it - each such move is
+    followed, before the next one, by an adjustment of the cursor-row local in the matching direction.  Before fix
+    a4455ef the row was left alone: after growing a 4-row terminal whose scrollback held a line, the next line feed
+    overwrote the last printed line."""
+    p = ctx.p
+    rr = RuleResult("PAIR", "C15.30", "every line moved between the screen top and the scrollback by resize() shifts the cursor row with it", floor=2)
+    fi = p.func(f"{VT}.TermCanvas.resize")
+    cfg = cfg_of(fi)
+    yname = None
+    for n in fi.own_nodes():
+        if isinstance(n, ast.Assign) and isinstance(n.targets[0], ast.Tuple) and len(n.targets[0].elts) == 2 and isinstance(n.value, ast.Attribute) and n.value.attr == "term_cursor":
+            yname = n.targets[0].elts[1].id
+    if yname is None:
+        raise AnalysisError("resize: `x, y = self.term_cursor` not found")
+    for want, meth in ((ast.Add, "insert"), (ast.Sub, "pop")):
+        moves = nodes_where(cfg, lambda c, meth=meth: isinstance(c, ast.Call) and isinstance(c.func, ast.Attribute) and c.func.attr == meth and ast.unparse(c.func.value) == f"{fi.self_name}.term" and c.args and isinstance(c.args[0], ast.Constant) and c.args[0].value == 0)
+        adj = [n for n in cfg.nodes if isinstance(n.ast, ast.AugAssign) and isinstance(n.ast.target, ast.Name) and n.ast.target.id == yname and isinstance(n.ast.op, want)]
+        for mv in moves:
+            # from the move, every way on (to the next move, to the end) passes the adjustment
+            ok = bool(adj) and not ({cfg.exit} | set(moves)) & (cfg.reachable([mv], avoid=adj, labels=("n", "T", "F")) - {mv})
+            rr.inst(f"term.{meth}(0)", True, {"move": norm(mv.stmt, 50), "cursor_row": yname, "adjusted": ok})
+            if not ok:
+                rr.add(finding("PAIR", fi, mv.stmt, f"`{norm(mv.stmt, 50)}` shifts every line of the screen by one row but the cursor row `{yname}` is not adjusted before the next move / the end of resize(): the cursor ends up on another line than the one it was on - the next output overwrites a printed line", construct=f"resize: {meth}(0) without moving the cursor row"))
+    return rr
+
+
 def rule_scroll_mirror(ctx: Ctx) -> RuleResult:
     """scroll() moves the rows of the scrolling region by one: it removes the row at one margin and inserts a blank
     row at the other, so every row outside the region keeps its place.  Both arms (forward, reverse) pop at a region
@@ -1039,6 +1068,7 @@ def run(ctx: Ctx):
         rule_scroll_mirror(ctx),
         rule_moves_do_not_write(ctx),
         rule_esc_restarts(ctx),
+        rule_resize_keeps_cursor_line(ctx),
     ]
     return out
 
@@ -1047,6 +1077,8 @@ from ..mutants import Mut  # noqa: E402
 
 _V = "urwid/vterm.py"
 MUTANTS = [
+    Mut("resize-grow-leaves-cursor-row", "urwid/vterm.py", "TermCanvas.resize", "                y += 1  # the cursor stays on its line\n", "", "PAIR|vterm.TermCanvas.resize|resize: insert(0) without moving the cursor row"),
+    Mut("resize-shrink-leaves-cursor-row", "urwid/vterm.py", "TermCanvas.resize", "                y -= 1  # the cursor stays on its line\n", "", "PAIR|vterm.TermCanvas.resize|resize: pop(0) without moving the cursor row"),
     Mut("esc-keeps-unfinished-sequence", "urwid/vterm.py", "TermCanvas.process_char", "            # an ESC abandons an unfinished sequence and starts a new one\n            self.leave_escape()\n", "", "ORDER|vterm.TermCanvas.process_char|ESC does not abandon an unfinished sequence"),
     Mut("cr-keeps-pending-wrap", "urwid/vterm.py", "TermCanvas.carriage_return", "        self.is_rotten_cursor = False  # column 0 is not a pending wrap, also on a terminal one column wide\n", "", "PASS|vterm.TermCanvas.carriage_return|carriage_return: cursor placed with the pending wrap kept"),
     Mut("tab-blanks-the-cursor-cell", "urwid/vterm.py", "TermCanvas.tab", "        while x < self.width - 1:\n            x += 1\n", "        while x < self.width - 1:\n            self.set_char(b\" \")\n            x += 1\n", "WRITER|vterm.TermCanvas.tab|tab: cell writer set_char in a pure movement"),
